@@ -12,7 +12,7 @@ import numpy as np
 from .mlmc_common import *  # noqa
 from .mlmc_common import (z3, V, shims, SymReal, SymInt, SymBool, AND, OR, NOT, EQ, IMPLIES, Unsupported, PathAbort, make_engine, ME, CR, CFG, ST,
                           ScriptedCoupling, ScriptedProduct, Registry, ScriptedCriteria, PT)
-from .common import Harness, run_check, COMMON_ASSUMPTIONS
+from .common import EQ_RATIONAL, Harness, run_check, COMMON_ASSUMPTIONS
 
 PID = "C05"
 MAX_PASSES = 4
@@ -96,6 +96,12 @@ def replay_run(sc):
         n_rep = int(res.Nl[l]) if l < len(res.Nl) else None
         if n_rep is not None and n_rep != len(S):
             details.append(f"level {l}: reported N_l = {n_rep} but {len(S)} samples were simulated")
+        if S and l < len(res.Nl):
+            ys = np.array([0.9 * 2.0 * (f - c) for f, c in S])
+            m4 = float(np.mean((ys - ys.mean()) ** 4))
+            kur = float(res.kurtosis[l]) * max(1.0, float(ys.var())) ** 2
+            if abs(kur - m4) > 1e-9 * max(1.0, abs(m4)):
+                details.append(f"level {l}: kurtosis x max(1, variance)^2 = {kur!r} but the fourth central moment of the {len(S)} simulated samples is {m4!r}")
         if S and l in reg.costs and l < len(res.cl) and abs(float(res.cl[l]) - float(reg.costs[l])) > 1e-9 * max(1.0, float(reg.costs[l])):
             details.append(f"level {l}: reported cost per sample cl = {float(res.cl[l])!r} but every sample of that level cost {float(reg.costs[l])!r}")
     got = float(stats.price())
@@ -129,7 +135,7 @@ def _level_terms(reg, l, df, notional):
     return S, ys, fs
 
 
-def _check_results(ctx, stats, reg, df, notional, rp, info, region_new_level):
+def _check_results(ctx, stats, reg, df, notional, rp, info, region_new_level, kurtosis=False):
     res = stats.mlmc_results
     nlev = len(stats.mc_statistics)
     total = 0
@@ -157,6 +163,11 @@ def _check_results(ctx, stats, reg, df, notional, rp, info, region_new_level):
         ctx.prove("C05.var_level_l", EQ(res.var_level_l[l], var_f), info=dict(info, level=l), replay=rp, regions=late)
         if l in reg.costs:
             ctx.prove("C05.cost_per_sample_cl", EQ(res.cl[l], reg.costs[l]), info=dict(info, level=l), replay=rp, regions=late)
+        if kurtosis and n <= 2:
+            # kurtosis of the correction terms: fourth central sample moment over (variance floored at 1)^2 - the floor is the library's
+            m4 = sum((y - mean_y) ** 4 for y in ys) / n
+            kur = res.kurtosis[l]
+            ctx.prove("C05.level_kurtosis_from_the_simulated_samples", EQ_RATIONAL(kur * V.smax(1.0, var_y) * V.smax(1.0, var_y), m4), info=dict(info, level=l), replay=rp, regions=late)
     for l, S in reg.samples.items():
         if l == 0:
             ctx.prove("C05.coarse_payoff_is_zero_at_level_0", all((not V.is_sym(c)) and c == 0.0 for f, c in S), info=info, replay=rp)
@@ -176,7 +187,7 @@ def h_adaptive(ctx, il, n0, lm, bound, passes=MAX_PASSES):
         raise PathAbort()
     rp = (replay_run, _scenario(ctx, crit, il, n0, lm, bound))
     added = len(stats.mc_statistics) > il + 1 or any(n > il + 1 for n, _ in crit.ns_calls)
-    _check_results(ctx, stats, reg, df, notional, rp, {"il": il, "n0": n0, "lm": lm, "passes": len(crit.ns_calls)}, added)
+    _check_results(ctx, stats, reg, df, notional, rp, {"il": il, "n0": n0, "lm": lm, "passes": len(crit.ns_calls)}, added, kurtosis=(bound <= 1 or n0 + bound <= 2))
 
 
 def replay_fixed_crash(sc):
@@ -202,7 +213,7 @@ def h_fixed(ctx, il, n0, lm):
                   regions={"maximum_level_below_initial_level": lm < il})
         return
     ctx.prove("C05.fixed_level_run_completes", True)
-    _check_results(ctx, stats, reg, df, notional, rp, {"il": il, "n0": n0, "lm": lm, "fixed": True}, False)
+    _check_results(ctx, stats, reg, df, notional, rp, {"il": il, "n0": n0, "lm": lm, "fixed": True}, False, kurtosis=True)
 
 
 def h_adaptive_large(ctx, il, n0, bound):
@@ -295,7 +306,7 @@ def harnesses(tier):
     return hs
 
 
-EXPECT = ["C05.price_is_sum_of_level_means_over_simulated_samples", "C05.reported_Nl_is_number_of_simulated_samples", "C05.level_mean_ml",
+EXPECT = ["C05.level_kurtosis_from_the_simulated_samples", "C05.price_is_sum_of_level_means_over_simulated_samples", "C05.reported_Nl_is_number_of_simulated_samples", "C05.level_mean_ml",
           "C05.level_variance_vl", "C05.mean_level_l", "C05.cost_per_sample_cl", "C05.coarse_payoff_is_zero_at_level_0"]
 
 
